@@ -435,8 +435,15 @@ package ring
 //@   modifies nothing
 //@
 //@ # read-only helpers of the index construction: they do not change the descriptor (frame obligations, proved)
+//@ func MergeTokensByZone
+//@   property C05
+//@   ensures  keys: forall z string :: in(z, result) <==> in(z, zones)
+//@   loop 0 invariant !isnil(out) && same($coll, zones) && (forall z string :: in(z, out) <==> $visited[z])
+//@   modifies nothing
 //@ func Desc.getTokensByZone
 //@   property C05
+//@   ensures  keys: forall id string :: in(id, d.Ingesters) ==> in(d.Ingesters[id].Zone, result)
+//@   loop 0 invariant !isnil(zones) && same(d, old(d)) && (forall id string :: $visited[id] && in(id, d.Ingesters) ==> in(d.Ingesters[id].Zone, zones))
 //@   modifies nothing
 //@ func Desc.getOldestRegisteredTimestamp
 //@   property C05
@@ -470,7 +477,7 @@ package ring
 //@ # The lookup representation invariant is established whenever the client (re)builds its indexes from a descriptor whose
 //@ # token lists are strictly sorted and pairwise disjoint (what normalizeIngestersMap and resolveConflicts leave behind):
 //@ # strictly sorted ring tokens, an owner record for every ring token, owner records that name an existing entry and
-//@ # carry that entry's zone. (The zone list part of the invariant is not established here: getZones is not under contract.)
+//@ # carry that entry's zone, and a duplicate-free zone list that contains the zone of every owner record.
 //@ func Ring.setRingStateFromDesc
 //@   property C05 C01
 //@   requires ringDesc != nil && !isnil(ringDesc.Ingesters) && descTokensOK(ringDesc) && !isnil(r.trackedRingZones)
@@ -478,3 +485,22 @@ package ring
 //@   ensures  sorted: sortedStrict(r.ringTokens)
 //@   ensures  owners: forall i int :: 0 <= i && i < len(r.ringTokens) ==> in(r.ringTokens[i], r.ringInstanceByToken)
 //@   ensures  zones_of_owners: forall t uint32 :: in(t, r.ringInstanceByToken) ==> in(r.ringInstanceByToken[t].InstanceID, r.ringDesc.Ingesters) && r.ringDesc.Ingesters[r.ringInstanceByToken[t].InstanceID].Zone == r.ringInstanceByToken[t].Zone
+//@   ensures  zone_list: (forall t uint32 :: in(t, r.ringInstanceByToken) ==> (exists z int :: 0 <= z && z < len(r.ringZones) && r.ringZones[z] == r.ringInstanceByToken[t].Zone)) && (forall a, b int :: 0 <= a && a < b && b < len(r.ringZones) ==> r.ringZones[a] != r.ringZones[b])
+//@   # together: the representation invariants the lookups assume
+//@   ensures  rep: r.cfg.ReplicationFactor >= 1 ==> ringRep(r) && zonesRep(r)
+//@
+//@ # the zone list: exactly the keys of the per-zone token map, each once
+//@ func getZones
+//@   property C05 C01
+//@   ghost var at total[string]int = havoc
+//@   ghost var z0 []string = havoc
+//@   ensures  members: forall i int :: 0 <= i && i < len(result) ==> in(result[i], tokens)
+//@   ensures  complete: forall z string :: in(z, tokens) ==> (exists i int :: 0 <= i && i < len(result) && result[i] == z)
+//@   ensures  distinct: forall a, b int :: 0 <= a && a < b && b < len(result) ==> result[a] != result[b]
+//@   loop 0 end at := store(at, zone, len(zones) - 1)
+//@   loop 0 invariant len(zones) == $i && same($coll, tokens)
+//@   loop 0 invariant forall i int :: 0 <= i && i < len(zones) ==> $visited[zones[i]] && in(zones[i], tokens) && at[zones[i]] == i
+//@   loop 0 invariant forall z string :: $visited[z] ==> 0 <= at[z] && at[z] < len(zones) && zones[at[z]] == z
+//@   at before@sort.Strings: z0 := zones
+//@   at after@sort.Strings: assert placed: forall z string :: in(z, tokens) ==> 0 <= sortpos(z0, zones, at[z]) && sortpos(z0, zones, at[z]) < len(zones) && zones[sortpos(z0, zones, at[z])] == z
+//@   modifies nothing
